@@ -293,6 +293,19 @@ func (p *twkbParser) parseExtendedPrecision() error {
 	return nil
 }
 
+// unscale converts the integer representation of an ordinate in dimension d
+// back to its floating point value.
+func (p *twkbParser) unscale(d int, v int64) float64 {
+	if s := p.scalings[d]; s < 1 {
+		// For a negative precision the scaling is 10^-k. Unlike 10^k, that
+		// isn't exactly representable, so dividing by it can be off by a
+		// unit in the last place even for values that are on the grid (e.g.
+		// 1 / 1e-5 gives 99999.99999999999). Multiply by 10^k instead.
+		return float64(v) * math.Round(1/s)
+	}
+	return float64(v) / p.scalings[d]
+}
+
 func (p *twkbParser) parseSize() error {
 	if len(p.twkb) <= p.pos {
 		return errors.New("lacking size varint")
@@ -337,15 +350,15 @@ func (p *twkbParser) parseBBoxHeader() (ExtendedEnvelope, error) {
 	}
 	switch {
 	case p.hasZ && p.hasM:
-		minX := float64(p.bbox[0]) / p.scalings[0]
-		minY := float64(p.bbox[2]) / p.scalings[1]
-		minZ := float64(p.bbox[4]) / p.scalings[2]
-		minM := float64(p.bbox[6]) / p.scalings[3]
+		minX := p.unscale(0, p.bbox[0])
+		minY := p.unscale(1, p.bbox[2])
+		minZ := p.unscale(2, p.bbox[4])
+		minM := p.unscale(3, p.bbox[6])
 
-		maxX := float64(p.bbox[0]+p.bbox[1]) / p.scalings[0]
-		maxY := float64(p.bbox[2]+p.bbox[3]) / p.scalings[1]
-		maxZ := float64(p.bbox[4]+p.bbox[5]) / p.scalings[2]
-		maxM := float64(p.bbox[6]+p.bbox[7]) / p.scalings[3]
+		maxX := p.unscale(0, p.bbox[0]+p.bbox[1])
+		maxY := p.unscale(1, p.bbox[2]+p.bbox[3])
+		maxZ := p.unscale(2, p.bbox[4]+p.bbox[5])
+		maxM := p.unscale(3, p.bbox[6]+p.bbox[7])
 
 		return ExtendedEnvelope{
 			XYEnvelope: NewEnvelope(XY{minX, minY}, XY{maxX, maxY}),
@@ -353,37 +366,37 @@ func (p *twkbParser) parseBBoxHeader() (ExtendedEnvelope, error) {
 			MRange:     NewInterval(minM, maxM),
 		}, nil
 	case p.hasZ:
-		minX := float64(p.bbox[0]) / p.scalings[0]
-		minY := float64(p.bbox[2]) / p.scalings[1]
-		minZ := float64(p.bbox[4]) / p.scalings[2]
+		minX := p.unscale(0, p.bbox[0])
+		minY := p.unscale(1, p.bbox[2])
+		minZ := p.unscale(2, p.bbox[4])
 
-		maxX := float64(p.bbox[0]+p.bbox[1]) / p.scalings[0]
-		maxY := float64(p.bbox[2]+p.bbox[3]) / p.scalings[1]
-		maxZ := float64(p.bbox[4]+p.bbox[5]) / p.scalings[2]
+		maxX := p.unscale(0, p.bbox[0]+p.bbox[1])
+		maxY := p.unscale(1, p.bbox[2]+p.bbox[3])
+		maxZ := p.unscale(2, p.bbox[4]+p.bbox[5])
 
 		return ExtendedEnvelope{
 			XYEnvelope: NewEnvelope(XY{minX, minY}, XY{maxX, maxY}),
 			ZRange:     NewInterval(minZ, maxZ),
 		}, nil
 	case p.hasM:
-		minX := float64(p.bbox[0]) / p.scalings[0]
-		minY := float64(p.bbox[2]) / p.scalings[1]
-		minM := float64(p.bbox[4]) / p.scalings[2]
+		minX := p.unscale(0, p.bbox[0])
+		minY := p.unscale(1, p.bbox[2])
+		minM := p.unscale(2, p.bbox[4])
 
-		maxX := float64(p.bbox[0]+p.bbox[1]) / p.scalings[0]
-		maxY := float64(p.bbox[2]+p.bbox[3]) / p.scalings[1]
-		maxM := float64(p.bbox[4]+p.bbox[5]) / p.scalings[2]
+		maxX := p.unscale(0, p.bbox[0]+p.bbox[1])
+		maxY := p.unscale(1, p.bbox[2]+p.bbox[3])
+		maxM := p.unscale(2, p.bbox[4]+p.bbox[5])
 
 		return ExtendedEnvelope{
 			XYEnvelope: NewEnvelope(XY{minX, minY}, XY{maxX, maxY}),
 			MRange:     NewInterval(minM, maxM),
 		}, nil
 	default:
-		minX := float64(p.bbox[0]) / p.scalings[0]
-		minY := float64(p.bbox[2]) / p.scalings[1]
+		minX := p.unscale(0, p.bbox[0])
+		minY := p.unscale(1, p.bbox[2])
 
-		maxX := float64(p.bbox[0]+p.bbox[1]) / p.scalings[0]
-		maxY := float64(p.bbox[2]+p.bbox[3]) / p.scalings[1]
+		maxX := p.unscale(0, p.bbox[0]+p.bbox[1])
+		maxY := p.unscale(1, p.bbox[2]+p.bbox[3])
 
 		return ExtendedEnvelope{
 			XYEnvelope: NewEnvelope(XY{minX, minY}, XY{maxX, maxY}),
@@ -650,7 +663,7 @@ func (p *twkbParser) parsePointArray(numPoints int) ([]float64, error) {
 			}
 
 			p.refpoint[d] += val // Reverse coord differencing to find the true value.
-			coords[c] = float64(p.refpoint[d]) / p.scalings[d]
+			coords[c] = p.unscale(d, p.refpoint[d])
 			c++
 		}
 	}
